@@ -17,6 +17,7 @@ fn run_case(case: &Value) -> Result<String, String> {
         "cm_ops" => Ok(crate::cmm::replay(case)),
         "cm_confidence" => Ok(crate::c08::replay_confidence(case)),
         "bloom_ops" => Ok(crate::bloomm::replay(case)),
+        "bloom_item_shape" => Err("bloom_item_shape cases are self-describing (item, hashed bytes, configuration)".to_string()),
         "bloom_fpp" | "bloom_builder" => Ok(crate::c09::replay_e3(case)),
         "fi_ops" => Ok(crate::fim::replay(case)),
         "td_image" | "td_ops" | "td_tree" => Ok(crate::tdm::replay(case)),
